@@ -41,10 +41,10 @@ BOUNDS = {
     "quick": {"payload_chars": "0..4, every 7-bit character (incl. $ # } * ')", "chunkings": "all (symbolic boundary after every byte)",
               "corruption": "any one checksum digit -> any other 7-bit char; any one packet-data char -> any other byte 0..255 except # and $ (payload <= 2)",
               "retry_budget": "1..10 symbolic, and the default", "ack_sequence": "every sequence over {+,-,timeout} up to budget+2",
-              "stream_bytes": "0..5 arbitrary 7-bit bytes", "duplex": "<= 3 transmissions, <= 1 notification before/after each ack"},
+              "stream_bytes": "0..6 arbitrary 7-bit bytes", "duplex": "<= 3 transmissions, <= 1 notification before/after each ack, <= 2 in total"},
     "thorough": {"payload_chars": "0..6", "chunkings": "all", "corruption": "as quick, payload <= 4 (checksum digit) / <= 3 (data char)",
                  "retry_budget": "1..10 symbolic, and the default", "ack_sequence": "every sequence over {+,-,timeout} up to budget+2",
-                 "stream_bytes": "0..7 arbitrary 7-bit bytes", "duplex": "<= 3 transmissions, <= 2 notifications before/after each ack"},
+                 "stream_bytes": "0..8 arbitrary 7-bit bytes", "duplex": "<= 3 transmissions, <= 2 notifications before/after each ack, <= 3 in total"},
 }
 OUTSIDE = [
     "real threads: the receiver thread (transport.recv_thread) is run synchronously inside the sender's send(); "
@@ -337,9 +337,10 @@ class E2EHarness(RspHarness):
                     else:
                         idx = 1 + int(w)
                 if idx is not None:
-                    if wire[idx] != inp["new"]:
+                    wire[idx] = inp["new"]
+                    # is what B receives a packet with a bad checksum (manual's definition)?  forks.
+                    if not spec.checksum_field_ok(wire[-2], wire[-1], wire[1:-3]):
                         log["changed"] = True
-                        wire[idx] = inp["new"]
                     data = SymBytes.make(wire)
             if state["tx"] == 2:
                 log["b_out_at_retx"] = len(B.sock.out)
@@ -381,7 +382,7 @@ class E2EHarness(RspHarness):
 class AckHarness(RspHarness):
     """sendpkt against a nondeterministic ack source"""
 
-    def __init__(self, rmax=10, default=False, n=2):
+    def __init__(self, rmax=10, default=False, n=1):
         self.rmax, self.default, self.n = rmax, default, n
         self.name = f"rsp.ack[{'default-budget' if default else 'budget<=%d' % rmax}]"
         self.params = dict(rmax=rmax, default=default, n=n)
@@ -612,19 +613,19 @@ def jobs(tier, seed):
             js.append(("mk_e2e", dict(n=n, classes=cl, corrupt="data")))
     js.append(("mk_ack", dict(rmax=10)))
     js.append(("mk_ack", dict(default=True)))
-    for n in range((5 if quick else 7) + 1):
+    for n in range((6 if quick else 8) + 1):
         if n <= 4:
             js.append(("mk_stream", dict(n=n)))
         else:
             for f in ("$", "ack", "other"):
                 js.append(("mk_stream", dict(n=n, first=f)))
-    m = 1 if quick else 2
-    shapes = []
     import itertools
+    m, total = (1, 2) if quick else (2, 3)
     per_tx = [(a, b) for a in range(m + 1) for b in range(m + 1)]
+    shapes = []
     for T in (1, 2, 3):
-        for combo in itertools.product(per_tx if T < 3 else [(0, 0), (1, 0), (0, 1)], repeat=T):
-            if sum(a + b for a, b in combo) <= (3 if quick else 4):
+        for combo in itertools.product(per_tx, repeat=T):
+            if sum(a + b for a, b in combo) <= (total if T < 3 else total - 1):
                 shapes.append([list(x) for x in combo])
     for sh in shapes:
         js.append(("mk_duplex", dict(shape=sh)))
